@@ -602,6 +602,12 @@ func (c *clientFile) Readdir(offset uint64, count uint32) (Dirents, error) {
 		return nil, linux.EBADF
 	}
 
+	// Do not ask for more than fits in one reply (size[4] type[1] tag[2]
+	// count[4] entries) of the negotiated message size.
+	if max := c.client.messageSize - (headerLength + 4); count > max {
+		count = max
+	}
+
 	rreaddir := rreaddir{}
 	if err := c.client.sendRecv(&treaddir{Directory: c.fid, Offset: offset, Count: count}, &rreaddir); err != nil {
 		return nil, err
